@@ -663,7 +663,15 @@ class SyncObj(object):
                 try:
                     currentTermID = entry[2]
                     subscribers = self.__commandsWaitingCommit.pop(entry[1], [])
-                    res = self.__doApplyCommand(entry[0])
+                    try:
+                        res = self.__doApplyCommand(entry[0])
+                    except SyncObjExceptionWrongVer:
+                        raise
+                    except Exception as e:
+                        # A replicated method that raises does so on every replica alike: the entry
+                        # counts as applied and the exception is handed to the caller as the result.
+                        logger.exception('replicated method raised an exception')
+                        res = e
                     for subscribeTermID, callback in subscribers:
                         if subscribeTermID == currentTermID:
                             callback(res, FAIL_REASON.SUCCESS)
@@ -1564,6 +1572,8 @@ def replicated(*decArgs, **decKwargs):
                         raise SyncObjException('Timeout')
                     if not asyncResult.error == 0:
                         raise SyncObjException(asyncResult.error)
+                    if isinstance(asyncResult.result, Exception):
+                        raise asyncResult.result
                     return asyncResult.result
 
         func_dict = newFunc.__dict__ if is_py3 else newFunc.func_dict
